@@ -10,6 +10,11 @@ import BW.Model.QueryPost
 namespace BW.Spec
 open BW.Model
 
+def mirror : HOp → HOp
+  | .lt => .gt
+  | .gt => .lt
+  | .eq => .eq
+
 def specH : Nat → List HTok → Option (HExpr × List HTok)
   | 0, _ => none
   | f + 1, .not :: tail => (specH f tail).map fun (e, rest) => (.not e, rest)
@@ -28,6 +33,28 @@ def specH : Nat → List HTok → Option (HExpr × List HTok)
       | .and :: more => (specH f more).map fun (e2, r2) => (.and e e2, r2)
       | .or :: more => (specH f more).map fun (e2, r2) => (.or e e2, r2)
       | _ => some (e, rest)
+  -- the constant first: `c < ?b` reads `?b > c` (the engine's builder refuses the spelling; an implementation that
+  -- accepts it is held to this reading)
+  | f + 1, .lit c :: .op o :: .binding l :: rest =>
+    (match rest with
+     | .and :: more => (specH f more).map fun (e2, r2) => (.and (.cmpLit (mirror o) l c) e2, r2)
+     | .or :: more => (specH f more).map fun (e2, r2) => (.or (.cmpLit (mirror o) l c) e2, r2)
+     | _ => some (.cmpLit (mirror o) l c, rest))
+  | f + 1, .node n :: .op o :: .binding l :: rest =>
+    (match rest with
+     | .and :: more => (specH f more).map fun (e2, r2) => (.and (.cmpNode (mirror o) l n) e2, r2)
+     | .or :: more => (specH f more).map fun (e2, r2) => (.or (.cmpNode (mirror o) l n) e2, r2)
+     | _ => some (.cmpNode (mirror o) l n, rest))
+  | f + 1, .time t :: .op o :: .binding l :: rest =>
+    (match rest with
+     | .and :: more => (specH f more).map fun (e2, r2) => (.and (.cmpTime (mirror o) l t) e2, r2)
+     | .or :: more => (specH f more).map fun (e2, r2) => (.or (.cmpTime (mirror o) l t) e2, r2)
+     | _ => some (.cmpTime (mirror o) l t, rest))
+  | f + 1, .pred t :: .op o :: .binding l :: rest =>
+    (match rest with
+     | .and :: more => (specH f more).map fun (e2, r2) => (.and (.cmpPred (mirror o) l t) e2, r2)
+     | .or :: more => (specH f more).map fun (e2, r2) => (.or (.cmpPred (mirror o) l t) e2, r2)
+     | _ => some (.cmpPred (mirror o) l t, rest))
   | f + 1, .lpar :: tail =>
     match specH f tail with
     | some (e, .rpar :: rest) =>
